@@ -5,6 +5,11 @@ import PermutaModel.Lemmas.C10Finest
 import PermutaModel.Lemmas.C10Extra
 import PermutaModel.Lemmas.C10Inflate
 import PermutaModel.Lemmas.C10Mono
+import PermutaModel.Lemmas.C10Unique
+import PermutaModel.Lemmas.C10Contained
+import PermutaModel.Lemmas.C10MonoMax
+import PermutaModel.Lemmas.C10Sorted
+import PermutaModel.Lemmas.C10InflateOnes
 
 /-!
 # C10 — algebraic and structural operations return valid permutations obeying their laws
@@ -515,5 +520,120 @@ theorem coveredby_children_dual (p q : NSeq) (hp : IsPerm p) (hq : IsPerm q) :
     q ∈ coveredby p ↔ p ∈ children q :=
   coveredby_iff_children hp hq
 example : [0, 2, 1] ∈ coveredby [0, 1] ∧ [0, 1] ∈ children [0, 2, 1] := by decide
+
+/-! ## uniqueness of the decompositions, skew via complement -/
+
+/-- **uniqueness**: any list of non-empty sum-indecomposable permutations whose n-ary direct sum is
+    `p` *is* `sum_decomposition(p)` -/
+theorem sumDecomposition_unique (p : NSeq) (L : List NSeq)
+    (hL : ∀ a ∈ L, IsPerm a ∧ a ≠ [] ∧ ¬ SumDecomposable a) (hsum : directSumN [] L = p) :
+    L = sumDecomposition p := by
+  have hLp : ∀ a ∈ L, IsPerm a := fun a ha => (hL a ha).1
+  have hp : IsPerm p := by
+    rw [← hsum, directSumN_eq_foldl]; exact foldl_directSum_isPerm isPerm_nil hLp
+  obtain ⟨s1, s2⟩ := sumDecomposition_spec hp
+  apply directSum_parts_unique L (sumDecomposition p) _ s2
+  · rw [← directSumN_eq_foldl, ← directSumN_eq_foldl, hsum, s1]
+  · intro a ha
+    obtain ⟨h1, h2, h3⟩ := hL a ha
+    refine ⟨h1, h2, ?_⟩
+    cases hb : isSumDecomposable a with
+    | false => rfl
+    | true => exact absurd ((isSumDecomposable_iff_spec h1).mp hb) h3
+example : [[0], [1, 0]] = sumDecomposition [0, 2, 1] := by
+  apply sumDecomposition_unique _ _ _ (by decide)
+  intro a ha
+  have hd : ∀ b ∈ [[0], [1, 0]], IsPerm b ∧ b ≠ [] ∧ isSumDecomposable b = false := by decide
+  obtain ⟨h1, h2, h3⟩ := hd a ha
+  refine ⟨h1, h2, fun h => ?_⟩
+  rw [(isSumDecomposable_iff_spec h1).mpr h] at h3
+  exact absurd h3 (by decide)
+
+/-- **uniqueness**, skew analogue: any list of non-empty skew-indecomposable permutations whose
+    n-ary skew sum is `p` *is* `skew_decomposition(p)` -/
+theorem skewDecomposition_unique (p : NSeq) (L : List NSeq)
+    (hL : ∀ a ∈ L, IsPerm a ∧ a ≠ [] ∧ ¬ SkewDecomposable a) (hsum : skewSumN [] L = p) :
+    L = skewDecomposition p := by
+  have hLp : ∀ a ∈ L, IsPerm a := fun a ha => (hL a ha).1
+  have hp : IsPerm p := by
+    rw [← hsum, skewSumN_eq_foldl]; exact foldl_skewSum_isPerm isPerm_nil hLp
+  obtain ⟨s1, s2⟩ := skewDecomposition_spec hp
+  apply skewSum_parts_unique L (skewDecomposition p) _ s2
+  · rw [← skewSumN_eq_foldl, ← skewSumN_eq_foldl, hsum, s1]
+  · intro a ha
+    obtain ⟨h1, h2, h3⟩ := hL a ha
+    refine ⟨h1, h2, ?_⟩
+    cases hb : isSkewDecomposable a with
+    | false => rfl
+    | true => exact absurd ((isSkewDecomposable_iff_spec h1).mp hb) h3
+example : [[0], [0, 1]] = skewDecomposition [2, 0, 1] := by
+  apply skewDecomposition_unique _ _ _ (by decide)
+  intro a ha
+  have hd : ∀ b ∈ [[0], [0, 1]], IsPerm b ∧ b ≠ [] ∧ isSkewDecomposable b = false := by decide
+  obtain ⟨h1, h2, h3⟩ := hd a ha
+  refine ⟨h1, h2, fun h => ?_⟩
+  rw [(isSkewDecomposable_iff_spec h1).mpr h] at h3
+  exact absurd h3 (by decide)
+
+/-- `skew_decomposition(p) = [complement(c) for c in sum_decomposition(complement(p))]` -/
+theorem skewDecomposition_via_complement (p : NSeq) (hp : IsPerm p) :
+    skewDecomposition p = (sumDecomposition (complement p)).map complement :=
+  skewDecomposition_eq_complement hp
+example : skewDecomposition [5, 3, 4, 1, 0, 2] = (sumDecomposition (complement [5, 3, 4, 1, 0, 2])).map complement ∧
+    sumDecomposition (complement [5, 3, 4, 1, 0, 2]) = [[0], [1, 0], [1, 2, 0]] := by decide
+
+/-! ## shadow and covers through pattern containment -/
+
+/-- **children = contained patterns one shorter**: `q ∈ children(p)` iff `q` is a permutation of
+    length `n-1` contained in `p` (`Contains` of `Spec/Basic.lean`) -/
+theorem children_eq_contained (p q : NSeq) (hp : IsPerm p) :
+    q ∈ children p ↔ IsPerm q ∧ q.length + 1 = p.length ∧ Contains p q :=
+  mem_children_iff_contains hp q
+example : [1, 0] ∈ children [2, 0, 1] ∧ Contains [2, 0, 1] [1, 0] :=
+  ⟨by decide, (children_eq_contained _ _ (by decide)).mp (by decide) |>.2.2⟩
+
+/-- **coveredby = containing permutations one longer**: `q ∈ coveredby(p)` iff `q` is a permutation
+    of length `n+1` that contains `p` -/
+theorem coveredby_eq_containing (p q : NSeq) (hp : IsPerm p) :
+    q ∈ coveredby p ↔ IsPerm q ∧ q.length = p.length + 1 ∧ Contains q p :=
+  mem_coveredby_iff_contains hp q
+example : [0, 2, 1] ∈ coveredby [0, 1] ∧ Contains [0, 2, 1] [0, 1] :=
+  ⟨by decide, (coveredby_eq_containing _ _ (by decide)).mp (by decide) |>.2.2⟩
+
+/-! ## monotone runs are maximal on both sides -/
+
+/-- every run `(s, e)` of `monotone_block_decomposition*` (with ones) of a permutation is a run that is
+    preceded and followed by a non-step (so it can be extended neither to the left nor to the
+    right), and no run of positions properly contains it -/
+theorem monoBlocks_left_maximal (k : MonoKind) (p : NSeq) (hp : IsPerm p) (s e : Nat)
+    (h : (s, e) ∈ monoBlocks k p true) :
+    IsRun (kAsc k) (kDesc k) p s e ∧
+    (0 < s → ¬ stepOk (kAsc k) (kDesc k) (p.getD (s - 1) 0) (p.getD s 0)) ∧
+    (e + 1 < p.length → ¬ stepOk (kAsc k) (kDesc k) (p.getD e 0) (p.getD (e + 1) 0)) ∧
+    (∀ s' e', IsRun (kAsc k) (kDesc k) p s' e' → s' ≤ s → e ≤ e' → s' = s ∧ e' = e) :=
+  monoBlocks_maximal k hp h
+example : (2, 4) ∈ monoBlocks .both [2, 6, 3, 4, 5, 1, 0] true := by decide
+
+/-! ## the set-valued listings are strictly sorted -/
+
+/-- the model lists `children`, `coveredby` and `block_decomposition_as_pattern` strictly increasing
+    for `Perm.__lt__` (length, then lexicographic), hence without duplicates -/
+theorem sortDedup_sorted (p : NSeq) :
+    ((children p).Pairwise (fun a b => permLt a b = true) ∧ (children p).Nodup) ∧
+    ((coveredby p).Pairwise (fun a b => permLt a b = true) ∧ (coveredby p).Nodup) ∧
+    ((blockDecompositionAsPattern p).Pairwise (fun a b => permLt a b = true) ∧
+      (blockDecompositionAsPattern p).Nodup) :=
+  ⟨⟨C10L.sortDedup_sorted _, sortDedup_nodup _⟩, ⟨C10L.sortDedup_sorted _, sortDedup_nodup _⟩,
+   ⟨C10L.sortDedup_sorted _, sortDedup_nodup _⟩⟩
+example : children [1, 0, 2] = [[0, 1], [1, 0]] ∧ permLt [0, 1] [1, 0] = true := by decide
+
+/-! ## inflation by single points -/
+
+/-- inflating every point by a single point (`None` or the one-point permutation) returns `p` -/
+theorem inflate_singletons (p : NSeq) (hp : IsPerm p) (comps : List (Option NSeq))
+    (hl : comps.length = p.length) (hc : ∀ o ∈ comps, o = none ∨ o = some [0]) :
+    inflate p comps = .ok p :=
+  inflate_ones hp comps hl hc
+example : inflate [1, 2, 0] [none, some [0], none] = .ok [1, 2, 0] := by decide
 
 end C10
